@@ -9,7 +9,8 @@ BUDGET_S = {'quick': 80, 'thorough': 1200}
 RULE = ('1..4 probes with independent spike counts, id ranges with gaps and curated clusters, spike times '
         'on a grid of 6 instants so that ties inside and across probes are the norm, time dtypes '
         'uint64/int64/int32/uint32, id dtypes uint32/int32/int64, per-cluster TSVs in all / some / none of '
-        'the probes; every spike carries a unique amplitude token so that its identity is observable '
+        'the probes, a quarter of them with an everyday artefact (a trailing blank line, a blank line between rows, CRLF line '
+        'ends: same rows, other bytes); every spike carries a unique amplitude token so that its identity is observable '
         'after the merge. One case = one real Merger.merge(), also run through the Lean file-system model of the '
         'whole merge (which files appear in the output directory, their contents, nothing else touched); every '
         'fourth case uses a Merger / process that has merged before (same object twice, write_spike_clusters twice, '
@@ -19,7 +20,8 @@ RULE = ('1..4 probes with independent spike counts, id ranges with gaps and cura
         'leaves, Lean mergeRetry / theorem merge_again_as_fresh. Advisory stream (never a verdict, agreement recorded under advisory:*): probes '
         'without spikes / with one spike / without a required file, output directory = a probe directory. '
         'non-trivial = >= 2 probes')
-ASSUMPTIONS = ['np.save/np.load, csv are transport', 'same dtype across probes (dtype mixing is outside the domain)']
+ASSUMPTIONS = ['np.save/np.load, csv are transport', 'same INTEGER dtype across probes (mixing integer dtypes is outside the domain); '
+               'amplitude precision (float32 / float64) may differ between the probes of a merge']
 
 
 def impl(case):
@@ -135,7 +137,7 @@ def drop_probe(case, i):
 # model and the agreement is recorded in the evidence.
 # ----------------------------------------------------------------------------------------
 
-ERR_CLASS = dict(notFound='FileNotFoundError', zeroDim='ValueError', emptyMax='ValueError', shape='AssertionError',
+ERR_CLASS = dict(notFound='FileNotFoundError', zeroDim='ValueError', emptyMax='ValueError', shape='AssertionError', ragged='ValueError',
                  noProbes='AssertionError')
 
 
@@ -230,6 +232,16 @@ def model_query(case, impl_res):
 # ----------------------------------------------------------------------------------------
 
 RATE_SCALE = 10000        # params.py sample_rate as an integer token
+POS_SCALE = 4             # probe coordinates are exact multiples of 1/4: the model gets them in quarter units (the
+                          # model's translation 2*max(x) - min(x) commutes with the change of unit)
+
+
+def pos_tok(v):
+    """a coordinate as the exact integer number of quarters"""
+    q = v * POS_SCALE
+    if q != round(q):
+        raise AssertionError('coordinate %r is not a multiple of 1/%d' % (v, POS_SCALE))
+    return int(round(q))
 
 
 def _int(v):
@@ -257,7 +269,7 @@ def probe_files(case, k):
         'spike_templates.npy': dict(k='nats', v=p['spike_templates']),
         'spike_clusters.npy': dict(k='nats', v=p['spike_clusters']),
         'channel_map.npy': dict(k='nats', v=p['channel_map']),
-        'channel_positions.npy': dict(k='pos', v=[[int(x), int(y)] for x, y in p['channel_positions']]),
+        'channel_positions.npy': dict(k='pos', v=[[pos_tok(x), pos_tok(y)] for x, y in p['channel_positions']]),
         'templates.npy': dict(k='tmpl', v=[_ints(t) for t in p['templates']]),
         'pc_feature_ind.npy': dict(k='table', v=p['pc_feature_ind']),
         'template_feature_ind.npy': dict(k='table', v=p['template_feature_ind']),
@@ -333,7 +345,7 @@ def _real_file(name, ok):
     if name in ('pc_feature_ind.npy', 'template_feature_ind.npy'):
         return dict(k='table', v=_ints(ok[key]['vals']))
     if name == 'channel_positions.npy':
-        return dict(k='pos', v=[[int(round(x)), int(round(y))] for x, y in ok[key]['vals']])
+        return dict(k='pos', v=[[int(round(x * POS_SCALE)), int(round(y * POS_SCALE))] for x, y in ok[key]['vals']])
     if name == 'templates.npy':
         return dict(k='tmpl', v=[_ints(t) for t in ok[key]['vals']])
     if name in ('similar_templates.npy', 'whitening_mat.npy', 'whitening_mat_inv.npy'):
@@ -386,6 +398,46 @@ def _parse_cell(v):
             return v
 
 
+def _tsv_rows(txt):
+    """the rows [cluster id, value] of a two-column cluster_*.tsv text: the header line decides the delimiter, lines
+    end with LF or CRLF, an EMPTY line (a trailing newline added by an editor, a gap between rows) is not a row"""
+    lines = txt.replace('\r\n', '\n').split('\n')
+    dl = '\t' if '\t' in lines[0] else ','
+    return [line.split(dl) for line in lines[1:] if line != '']
+
+
+TSV_ARTEFACTS = ('trailing blank line', 'blank line between rows', 'CRLF line ends')
+
+
+def mixed_precisions(case, rng):
+    """probes sorted with different versions of the sorter: amplitudes stored in single precision by some probes, in
+    double precision by others (every other amplitude token, x.1, needs double precision)"""
+    if len(case['probes']) > 1:
+        for p in case['probes']:
+            p['dtypes'] = dict(p['dtypes'], amplitudes=rng.pick(['float32', 'float64']))
+    return case
+
+
+def tsv_artefacts(case, rng):
+    """everyday artefacts of hand-edited / exported per-cluster files: same rows, other bytes"""
+    for p in case['probes']:
+        for fn, txt in sorted((p.get('text_files') or {}).items()):
+            if rng.random() >= .25:
+                continue
+            kind = rng.pick(TSV_ARTEFACTS)
+            if kind == 'trailing blank line':
+                txt = txt + '\n'
+            elif kind == 'blank line between rows':
+                lines = txt.split('\n')          # header, rows..., ''
+                at = rng.randrange(1, len(lines) - 1)
+                txt = '\n'.join(lines[:at + 1] + [''] + lines[at + 1:]) if at + 1 < len(lines) - 1 else txt + '\n'
+            else:
+                txt = txt.replace('\n', '\r\n')
+            p['text_files'][fn] = txt
+            case.setdefault('tsv_artefacts', []).append(kind)
+    return case
+
+
 def _mds(case):
     """per TSV file: per probe None or rows [cluster id, token]; and the value each token stands for"""
     mds, vals = [], {}
@@ -397,9 +449,7 @@ def _mds(case):
                 md.append(None)
                 continue
             rows = []
-            dl = '\t' if '\t' in txt.split('\n')[0] else ','
-            for r, line in enumerate(txt.strip().split('\n')[1:]):
-                cid, v = line.split(dl)
+            for r, (cid, v) in enumerate(_tsv_rows(txt)):
                 tok = (f * 100 + k) * 1000 + r
                 vals[tok] = _parse_cell(v)
                 rows.append([int(cid), tok])
@@ -418,7 +468,7 @@ def oracle(case):
         t += max(max(p['spike_templates']) + 1, len(p['templates']))
     exp = dict(
         times=[s[0] for s in spikes],
-        amps=[P[k]['amplitudes'][i] for _, k, i in spikes],
+        amps=[P_amp(case, k, i) for _, k, i in spikes],
         clusters=[P[k]['spike_clusters'][i] + coff[k] for _, k, i in spikes],
         templates=[P[k]['spike_templates'][i] + toff[k] for _, k, i in spikes],
         cluster_probes=[k for k, p in enumerate(P) for _ in range(max(p['spike_clusters']) + 1)],
@@ -430,9 +480,7 @@ def oracle(case):
             txt = p.get('text_files', {}).get(fn)
             if txt is None:
                 continue
-            dl = '\t' if '\t' in txt.split('\n')[0] else ','
-            for line in txt.strip().split('\n')[1:]:
-                cid, v = line.split(dl)
+            for cid, v in _tsv_rows(txt):
                 try:
                     v = int(v)
                 except ValueError:
@@ -472,6 +520,11 @@ def judge(case, impl_res, ans):
         return 'SPEC: input directories were modified: %s' % ok['inputs_changed_files']
     if ok['spike_times']['vals'] != exp['times']:
         return 'SPEC: merged spike times are not the sorted multiset of input times'
+    if ok['amplitudes']['vals'] != exp['amps'] and \
+            [int(round(2 * a)) for a in ok['amplitudes']['vals']] == [int(round(2 * a)) for a in exp['amps']]:
+        return 'SPEC: merged spikes do not keep their amplitude exactly (amplitudes.npy is %s; stored per probe as %s): %s' % (
+            ok['amplitudes']['dtype'], [(p.get('dtypes') or {}).get('amplitudes', 'float64') for p in case['probes']],
+            [(a, b) for a, b in zip(ok['amplitudes']['vals'], exp['amps']) if a != b][:2])
     if ok['amplitudes']['vals'] != exp['amps']:
         return 'SPEC: spikes lost/duplicated/reordered (amplitude tokens): ties must keep in-probe order and order probes by index'
     if ok['spike_clusters']['vals'] != exp['clusters']:
@@ -516,7 +569,13 @@ def judge(case, impl_res, ans):
 
 
 def P_amp(case, k, i):
-    return case['probes'][k]['amplitudes'][i]
+    """the amplitude of spike i of probe k AS STORED in the probe directory (single or double precision)"""
+    p = case['probes'][k]
+    a = p['amplitudes'][i]
+    if (p.get('dtypes') or {}).get('amplitudes') == 'float32':
+        import numpy as np
+        return float(np.float32(a))
+    return a
 
 
 def nontrivial(case):
@@ -538,7 +597,14 @@ def tally(rep, case, impl_res, ans):
     if len(t) != len(set(t)):
         rep.count('ties')
     rep.count('tdtype:' + case['probes'][0]['dtypes']['spike_samples'])
+    ad = [(p.get('dtypes') or {}).get('amplitudes', 'float64') for p in case['probes']]
+    rep.count('amplitude_precisions:%s' % ('all double' if set(ad) == {'float64'} else 'all single' if set(ad) == {'float32'} else
+                                           'mixed, first probe %s' % ad[0]))
+    if any(len(p['templates']) > max(p['spike_templates']) + 1 for p in case['probes']):
+        rep.count('a probe whose last template has no spike')
     rep.count('tsv_probes:%d' % sum(1 for p in case['probes'] if p.get('text_files')))
+    for kind in sorted(set(case.get('tsv_artefacts', []))):
+        rep.count('tsv_artefact:' + kind)
 
 
 def tally_retry(rep, case, impl_res, ans):
@@ -587,5 +653,11 @@ def shrink(case):
 def gen(tier, rng):
     q = tier == 'quick'
     for i in range(150 if q else 3000):
-        yield with_again(dict(p=PID, **M.merge_case(rng, nprobes=[1, 2, 3, 4][i % 4] if i < 40 else None)), i, rng)
+        # every tenth case: the last template of every probe has no spike (rows of templates.npy > max(spike_templates) + 1:
+        # the template offsets of spike_templates.npy must count the rows)
+        kw = dict(last_template_empty=True) if i % 10 == 3 else {}
+        case = tsv_artefacts(dict(p=PID, **M.merge_case(rng, nprobes=[1, 2, 3, 4][i % 4] if i < 40 else None, **kw)), rng)
+        if i % 6 == 4:
+            case = mixed_precisions(case, rng)
+        yield with_again(case, i, rng)
     yield from advisory_cases(rng, 10 if q else 200)
